@@ -385,7 +385,11 @@ def _const_int(I, op):
 def _nonneg_div(f):
     def h(I, op):
         a, b = I.vals(op)
-        eng().assume(z3.And(a >= 0, b > 0))  # unsigned op on mathematical ints: assumption, counted
+        # unsigned op on mathematical ints: only defined for a >= 0, b > 0. Obligations are discharged against the final
+        # path condition, so an assumption here would silently excuse whatever was obliged before it: fork instead, and
+        # give up on the path (counted as unsupported, visible in the evidence) where the operands are out of range
+        if not eng().branch(z3.And(a >= 0, b > 0)):
+            raise sym.Unsupported("unsigned division / remainder reached with a negative operand or a divisor <= 0")
         I.state["int_div_assumptions"] = I.state.get("int_div_assumptions", 0) + 1
         I.set(op.results[0], f(a, b))
 
